@@ -322,6 +322,121 @@ Example w6_container_level :
     map (fun r => map tb_data (r_blocks r)) (doc_records d) = [[[0;0;0;1; 0;0;0;7]]].
 Proof. eexists. split; [vm_compute; reflexivity|]. split; vm_compute; reflexivity. Qed.
 
+(* ------------------------------------------------------------------ stage 3: the other modelled payload classes
+   (Psd/ResavePayload.v over Psd/Effects.v, Adjust.v, Vector.v, Patterns.v, Descriptor.v): for EVERY byte string the class
+   reader accepts, the value read is in the domain of the class round trip - so the writer's output re-reads to the same
+   value (and, by the class theorems, re-writes identically).  Unconditional for EffectsLayer and its six records,
+   BrightnessContrast / ColorBalance / Exposure / HueSaturation / SelectiveColor / PhotoFilter, ChannelMixer, Levels,
+   Curves, GradientMap, vector paths + VectorMaskSetting, Patterns (byte lists, codec_ok).  For the descriptor family
+   (DescriptorBlock / DescriptorBlock2, ColorLookup, VectorStrokeContentSetting and every descriptor value, any depth)
+   under the exact guard [dguard]: finding F-C02-7. *)
+From PsdV Require Import Psd.Typed Psd.Effects Psd.Descriptor Psd.Adjust Psd.Vector Psd.Patterns Psd.ResavePayload.
+
+Theorem effects_layer_resave : forall b l s n,
+  read_effects b = Ok l -> write_effects l = Ok (s, n) -> read_effects s = Ok l.
+Proof. exact effects_resave. Qed.
+Print Assumptions effects_layer_resave.
+
+Theorem adjustment_struct_resave : forall pad k b vals s n,
+  read_astruct k b = Ok vals -> write_astruct pad k vals = Ok (s, n) -> read_astruct k s = Ok vals.
+Proof. exact astruct_resave. Qed.
+Print Assumptions adjustment_struct_resave.
+Theorem channel_mixer_resave : forall b vals tail s n,
+  read_mixer b = Ok (vals, tail) -> write_mixer vals tail = Ok (s, n) -> read_mixer s = Ok (vals, tail).
+Proof. exact mixer_resave. Qed.
+Theorem levels_payload_resave : forall b version recs extra s n,
+  read_levels b = Ok (version, recs, extra) -> write_levels version recs extra = Ok (s, n) ->
+  read_levels s = Ok (version, recs, extra).
+Proof. exact levels_resave. Qed.
+Theorem curves_payload_resave : forall b c s n,
+  read_curves b = Ok c -> write_curves c = Ok (s, n) -> read_curves s = Ok c.
+Proof. exact curves_resave. Qed.
+Theorem gradient_map_resave : forall b g s n,
+  read_gradient b = Ok g -> write_gradient g = Ok (s, n) -> read_gradient s = Ok g.
+Proof. exact gradient_resave. Qed.
+Print Assumptions curves_payload_resave.
+Theorem vector_mask_resave : forall b version flags p s n,
+  read_vmask b = Ok (version, flags, p) -> write_vmask version flags p = Ok (s, n) -> read_vmask s = Ok (version, flags, p).
+Proof. exact vmask_resave. Qed.
+Print Assumptions vector_mask_resave.
+Theorem patterns_payload_resave : forall enc_s dec_s, codec_ok enc_s dec_s -> forall b l s n,
+  bytes b -> read_patterns dec_s (S (length b)) b = Ok l -> write_patterns enc_s l = Ok (s, n) ->
+  read_patterns dec_s (S (length s)) s = Ok l.
+Proof. exact patterns_resave. Qed.
+Print Assumptions patterns_payload_resave.
+
+(* the descriptor family: every value, nested to any depth.  The value is re-written under the term set as it is AFTER
+   the read (descriptor._TERMS is global and grows on read) *)
+Theorem descriptor_read_wf : forall units fuel t os b d t' r,
+  read_dval units fuel t os b = Ok (d, t', r) -> ostype_of d = os /\ (dkeys d = true -> wf_dval units d = true).
+Proof. intros units fuel t os b d t' r H. exact (read_dval_wf units fuel t os b d t' r H). Qed.
+Print Assumptions descriptor_read_wf.
+Theorem descriptor_resave : forall units fuel t os b d t' r s n rest,
+  read_dval units fuel t os b = Ok (d, t', r) -> dkeys d = true -> wf_terms t' = true ->
+  write_dval t' d = Ok (s, n) -> read_dval units (S (length s)) t' os (s ++ rest) = Ok (d, t', rest).
+Proof. exact dval_resave. Qed.
+Print Assumptions descriptor_resave.
+Theorem descriptor_block_resave : forall units two t b blk t' pad s n,
+  0 < pad -> read_dblock units two t b = Ok (blk, t') -> dguard t' (dblock_val blk) = true ->
+  write_dblock t' pad blk = Ok (s, n) -> read_dblock units two t' s = Ok (blk, t').
+Proof. exact dblock_resave. Qed.
+Print Assumptions descriptor_block_resave.
+Theorem color_lookup_payload_resave : forall units t b ver dv d t' pad s n,
+  read_color_lookup units t b = Ok (ver, dv, d, t') -> dguard t' d = true ->
+  write_color_lookup t' pad ver dv d = Ok (s, n) -> read_color_lookup units t' s = Ok (ver, dv, d, t').
+Proof. exact color_lookup_resave. Qed.
+Theorem stroke_content_resave : forall units t b key version d t' pad s n,
+  read_vscg units t b = Ok (key, version, d, t') -> dguard t' d = true ->
+  write_vscg t' pad key version d = Ok (s, n) -> read_vscg units t' s = Ok (key, version, d, t').
+Proof. exact vscg_resave. Qed.
+Print Assumptions stroke_content_resave.
+
+(* F-C02-7: a DescriptorBlock whose input ends inside its last key (an Enumerated value 'Ornt' . 'H', the length field of the
+   enum key is 0 = "a 4-byte term follows", one byte is left).  read_length_and_key takes the single byte as the key and
+   ADDS it to the term set; the writer emits it as a term (length 0) and pads the block; the re-read takes 'H\0\0\0'. *)
+Definition w7 : list Z :=
+  [0;0;0;16; 0;0;0;0; 0;0;0;0; 110;117;108;108; 0;0;0;1; 0;0;0;0; 79;114;110;116; 101;110;117;109;
+   0;0;0;0; 79;114;110;116; 0;0;0;0; 72].
+Theorem descriptor_resave_refuted :
+  exists blk t' s n blk' t'', read_dblock [] false [] w7 = Ok (blk, t') /\ dguard t' (dblock_val blk) = false /\
+    dkeys (dblock_val blk) = true /\ wf_terms t' = false /\
+    write_dblock t' 4 blk = Ok (s, n) /\ read_dblock [] false t' s = Ok (blk', t'') /\ blk' <> blk /\ t'' <> t'.
+Proof.
+  do 6 eexists. split; [vm_compute; reflexivity|]. split; [vm_compute; reflexivity|]. split; [vm_compute; reflexivity|].
+  split; [vm_compute; reflexivity|]. split; [vm_compute; reflexivity|]. split; [vm_compute; reflexivity|].
+  split; vm_compute; discriminate.
+Qed.
+Print Assumptions descriptor_resave_refuted.
+Example descriptor_resave_satisfiable :
+  exists blk t' s n, read_dblock [] false [] (w7 ++ [114;122;110]) = Ok (blk, t') /\ dguard t' (dblock_val blk) = true /\
+    write_dblock t' 4 blk = Ok (s, n) /\ read_dblock [] false t' s = Ok (blk, t').
+Proof. do 4 eexists. split; [vm_compute; reflexivity|]. split; [vm_compute; reflexivity|]. split; vm_compute; reflexivity. Qed.
+
+(* the container level for free (Psd/Typed.v): any class reader [rd] / writer [w] pair whose values re-save, inside a
+   TaggedBlock of either version, any block padding, any key (4- or 8-byte length), whatever follows the block *)
+Theorem payload_in_block_resave : forall X (rd : stream -> res X) (w : X -> W) v pad b sg key x s' bs n rest,
+  (pad = 1 \/ pad = 2 \/ pad = 4) ->
+  read_payload_block rd v pad b = Ok (Some (sg, key, x, s')) ->
+  wtruth (w x) -> (forall body m, w x = Ok (body, m) -> rd body = Ok x) ->
+  write_payload_block v pad sg key (w x) = Ok (bs, n) ->
+  read_payload_block rd v pad (bs ++ rest) = Ok (Some (sg, key, x, rest)).
+Proof. intros X. exact (@payload_block_resave X). Qed.
+Print Assumptions payload_in_block_resave.
+(* instance: an 'lrFX' block read from ANY bytes re-saves *)
+Example effects_block_resave : forall v pad b sg key l s' bs n rest,
+  (pad = 1 \/ pad = 2 \/ pad = 4) ->
+  read_payload_block read_effects v pad b = Ok (Some (sg, key, l, s')) ->
+  write_payload_block v pad sg key (write_effects l) = Ok (bs, n) ->
+  read_payload_block read_effects v pad (bs ++ rest) = Ok (Some (sg, key, l, rest)).
+Proof.
+  intros v pad b sg key l s' bs n rest Hp Hr Hw.
+  apply (payload_block_resave read_effects write_effects v pad b sg key l s' bs n rest Hp Hr (EffectsProofs.wtruth_effects l)); [|exact Hw].
+  intros body m Hb. unfold read_payload_block in Hr.
+  destruct (read_tagged_block v pad b) as [[[tb s1]|]|]; try discriminate. cbn [bind] in Hr.
+  destruct (read_effects (tb_data tb)) as [l0|] eqn:El; [|discriminate]. cbn [bind] in Hr. inversion Hr; subst.
+  exact (effects_resave _ _ _ _ El Hb).
+Qed.
+
 (* ------------------------------------------------------------------ the PSDImage level: PSDImage.open(b) then save() without edits
    (Psd/ResaveApi.v; the tree model is C08's Tree/Build.v).  save() = _update_record (returns at once while nothing was
    edited) + PSD.write of the structure read: [api_save] IS [write_psd], so whenever the constructor succeeds everything
